@@ -272,7 +272,7 @@ def run_history(workers: int, max_fails: int, history: List[Dict[str, Any]], mon
             env.restarts = _restarts_from_tb(he.__traceback__)
         except Hang:
             env.returned = "hang"
-        except Exception as exc:  # escaped from start(): a crash of the manager
+        except BaseException as exc:  # escaped from start(): a crash of the manager (incl. KeyboardInterrupt)
             env.returned = ("raised", type(exc).__name__)
             env.trace("raised", type(exc).__name__, str(exc))
             monitor.on_raise(exc)
